@@ -9,6 +9,11 @@
 
    No proofs in this file.
 
+   `doc_of` follows cst_print.rs AFTER the repairs of the C14 findings F6 F6t FM1..FM9 (KNOWN_FINDINGS.txt `fixed:` lines):
+   comments of re-created commas / braces are emitted (trivia_comments, join_with_commas), list items are what lies between
+   two commas, `(a,)` keeps its comma, `if` gets a space before a bare condition, a forced break before a then-branch that
+   starts with `(` / `[`, further children of a then-branch are kept, `| |` and `- -x` keep their blank.
+
    What is modelled
    * documents `doc` and the SET of their admissible renderings `rs` : every choice flat/broken per group, a group inside a
      flat group is flat, a hard line cannot be rendered flat (it forces every enclosing group to break).  The width algorithm
@@ -324,7 +329,7 @@ Inductive trivia : Type :=
 (* only the token kinds some print_* function dispatches on *)
 Inductive tkind : Type :=
 | KFunction | KLet | KLetRec | KAssign | KArrow
-| KOp (pipe : bool)       (* the 17 kinds print_binary_expr treats as operators; pipe = OpPipe | OpPipeMacro *)
+| KOp (pipe sign : bool)  (* the 17 kinds print_binary_expr treats as operators; pipe = OpPipe | OpPipeMacro; sign = OpMinus | OpSum *)
 | KLambdaBar | KComma | KIf | KElse
 | KBlockBegin | KBlockEnd | KParenBegin | KParenEnd | KArrayBegin | KArrayEnd
 | KIdent                  (* Ident | IdentFunction | IdentVariable *)
@@ -334,7 +339,8 @@ Inductive tkind : Type :=
 Inductive skind : Type :=
 | SProgram | SStatement | SFunctionDecl | SLetDecl | SLetRecDecl | SAssignExpr
 | SBinaryExpr | SUnaryExpr | SCallExpr | SLambdaExpr | SIfExpr | SBlockExpr
-| SGroupedList (is_type : bool) (* TupleExpr ArrayExpr ParamList ArgList TuplePattern RecordPattern (false) TupleType RecordType (true) *)
+| SGroupedList (is_type paren : bool) (* print_grouped_list; is_type: TupleType RecordType; paren: the caller passes "(" as
+                                         opening delimiter (TupleExpr ParamList ArgList TuplePattern TupleType) *)
 | SParenExpr
 | SRecordExpr | SMacroExpansion | SQualifiedPath
 | SLeaf (is_type : bool)  (* printed by print_leaf_children; is_type = one of the 8 kinds print_lambda_expr calls a type node *)
@@ -356,6 +362,38 @@ Definition emit_trivia (t : trivia) : doc :=
 Definition emit_token (text : string) (lead trail : list trivia) : doc :=
   fold_left (fun d t => cat d (emit_trivia t)) trail
             (cat (fold_left (fun d t => cat d (emit_trivia t)) lead Nil) (Text text)).
+
+(* trivia_comments(token, leading, trailing): the comments of a token that the printer re-creates from a constant *)
+Definition tcomments (lead trail : list trivia) (l t : bool) : doc :=
+  fold_left (fun d x => cat d (emit_trivia x)) (if t then trail else [])
+            (fold_left (fun d x => cat d (emit_trivia x)) (if l then lead else []) Nil).
+
+(* join_with_commas(items, seps, gap): seps[i] = comments of the comma after item i, printed after the re-created comma;
+   a trailing comma is dropped unless it carries comments *)
+Fixpoint join_from (items seps : list doc) (gap acc : doc) : doc :=
+  match items with
+  | [] => acc
+  | [it] =>
+      match hd Nil seps with
+      | Nil => cat acc it
+      | c => cat (cat (cat acc it) (Text ",")) c
+      end
+  | it :: r => join_from r (tl seps) gap (cat (cat (cat (cat acc it) (Text ",")) (hd Nil seps)) gap)
+  end.
+
+Definition join_with_commas (items seps : list doc) (gap : doc) : doc := join_from items seps gap Nil.
+
+(* first_token_index: kind of the first token of a subtree *)
+Fixpoint first_tkind (c : cst) : option tkind :=
+  match c with
+  | Tok k _ _ _ => Some k
+  | Node _ cs =>
+      (fix go (l : list cst) : option tkind :=
+         match l with
+         | [] => None
+         | x :: r => match first_tkind x with Some k => Some k | None => go r end
+         end) cs
+  end.
 
 Definition is_comment_trivia (t : trivia) : bool :=
   match t with TLine _ | TBlock _ => true | _ => false end.
@@ -401,7 +439,7 @@ Fixpoint print_assign_expr (cs : list cst) (ds : list doc) : doc :=
 (* print_binary_expr: (lhs, op, rhs, is_pipe, seen_op) *)
 Fixpoint print_binary_scan (cs : list cst) (ds : list doc) (lhs op rhs : doc) (is_pipe seen_op : bool) : doc * doc * doc * bool :=
   match cs, ds with
-  | Tok (KOp p) _ _ _ :: cr, d :: dr => print_binary_scan cr dr lhs d rhs p true
+  | Tok (KOp p _) _ _ _ :: cr, d :: dr => print_binary_scan cr dr lhs d rhs p true
   | _ :: cr, d :: dr =>
       if seen_op then print_binary_scan cr dr lhs op (cat rhs d) is_pipe seen_op
       else print_binary_scan cr dr (cat lhs d) op rhs is_pipe seen_op
@@ -416,42 +454,44 @@ Definition print_binary_expr (ind : nat) (cs : list cst) (ds : list doc) : doc :
 
 (* print_lambda_expr *)
 Record lam_state : Type := mkLam {
-  l_result : doc; l_in_params : bool; l_params : list doc; l_cur : doc; l_has_cur : bool;
+  l_result : doc; l_in_params : bool; l_params : list doc; l_seps : list doc; l_cur : doc; l_has_cur : bool;
   l_after_params : bool; l_after_arrow : bool; l_has_ret : bool; l_body_started : bool }.
 
 Definition is_type_node (c : cst) : bool :=
-  match c with Node (SLeaf true) _ | Node (SGroupedList true) _ => true | _ => false end.
+  match c with Node (SLeaf true) _ | Node (SGroupedList true _) _ => true | _ => false end.
 
 Definition lam_step (st : lam_state) (c : cst) (d : doc) : lam_state :=
   let other :=
     if l_in_params st then
-      mkLam (l_result st) true (l_params st) (cat (l_cur st) d) true (l_after_params st) (l_after_arrow st) (l_has_ret st) (l_body_started st)
+      mkLam (l_result st) true (l_params st) (l_seps st) (cat (l_cur st) d) true (l_after_params st) (l_after_arrow st) (l_has_ret st) (l_body_started st)
     else if l_after_params st then
       if l_after_arrow st && negb (l_has_ret st) && is_type_node c then
-        mkLam (cat (l_result st) d) false (l_params st) (l_cur st) (l_has_cur st) true (l_after_arrow st) true (l_body_started st)
+        mkLam (cat (l_result st) d) false (l_params st) (l_seps st) (l_cur st) (l_has_cur st) true (l_after_arrow st) true (l_body_started st)
       else if negb (l_body_started st) then
-        mkLam (cat (l_result st) (cat space d)) false (l_params st) (l_cur st) (l_has_cur st) true (l_after_arrow st) (l_has_ret st) true
+        mkLam (cat (l_result st) (cat space d)) false (l_params st) (l_seps st) (l_cur st) (l_has_cur st) true (l_after_arrow st) (l_has_ret st) true
       else
-        mkLam (cat (l_result st) d) false (l_params st) (l_cur st) (l_has_cur st) true (l_after_arrow st) (l_has_ret st) true
+        mkLam (cat (l_result st) d) false (l_params st) (l_seps st) (l_cur st) (l_has_cur st) true (l_after_arrow st) (l_has_ret st) true
     else st in
   match c with
   | Tok KLambdaBar _ _ _ =>
       if negb (l_in_params st) && negb (l_after_params st) then
-        mkLam (cat (l_result st) d) true (l_params st) (l_cur st) (l_has_cur st) false (l_after_arrow st) (l_has_ret st) (l_body_started st)
+        mkLam (cat (l_result st) d) true (l_params st) (l_seps st) (l_cur st) (l_has_cur st) false (l_after_arrow st) (l_has_ret st) (l_body_started st)
       else if l_in_params st then
         let ps := if l_has_cur st then l_params st ++ [l_cur st] else l_params st in
-        let combined := match ps with [] => Nil | _ => intersperse ps (Text ", ") end in
-        mkLam (cat (cat (l_result st) combined) d) false [] Nil false true (l_after_arrow st) (l_has_ret st) (l_body_started st)
+        (* `| |`: a space keeps the bars from being read as `||` *)
+        let combined := match ps with [] => space | _ => join_with_commas ps (l_seps st) (Text " ") end in
+        mkLam (cat (cat (l_result st) combined) d) false [] [] Nil false true (l_after_arrow st) (l_has_ret st) (l_body_started st)
       else st
-  | Tok KComma _ _ _ =>
+  | Tok KComma _ lead trail =>
       if l_in_params st then
         if l_has_cur st then
-          mkLam (l_result st) true (l_params st ++ [l_cur st]) Nil false (l_after_params st) (l_after_arrow st) (l_has_ret st) (l_body_started st)
+          mkLam (l_result st) true (l_params st ++ [l_cur st]) (l_seps st ++ [tcomments lead trail true true]) Nil false
+                (l_after_params st) (l_after_arrow st) (l_has_ret st) (l_body_started st)
         else st
       else other
   | Tok KArrow _ _ _ =>
       if l_after_params st then
-        mkLam (cat (l_result st) d) (l_in_params st) (l_params st) (l_cur st) (l_has_cur st) true true (l_has_ret st) (l_body_started st)
+        mkLam (cat (l_result st) d) (l_in_params st) (l_params st) (l_seps st) (l_cur st) (l_has_cur st) true true (l_has_ret st) (l_body_started st)
       else other
   | _ => other
   end.
@@ -463,16 +503,26 @@ Fixpoint lam_run (st : lam_state) (cs : list cst) (ds : list doc) : lam_state :=
   end.
 
 Definition print_lambda_expr (cs : list cst) (ds : list doc) : doc :=
-  group (l_result (lam_run (mkLam Nil false [] Nil false false false false false) cs ds)).
+  group (l_result (lam_run (mkLam Nil false [] [] Nil false false false false false) cs ds)).
+
+Definition opens_postfix (c : cst) : bool :=
+  match first_tkind c with Some KParenBegin | Some KArrayBegin => true | _ => false end.
+
+Definition is_paren_expr (c : cst) : bool := match c with Node SParenExpr _ => true | _ => false end.
 
 (* print_if_expr: (seen_if, seen_cond, seen_then, seen_else) *)
 Fixpoint print_if_scan (cs : list cst) (ds : list doc) (seen_if seen_cond seen_then seen_else : bool) : doc :=
   match cs, ds with
   | Tok KIf _ _ _ :: cr, d :: dr => cat d (print_if_scan cr dr true seen_cond seen_then seen_else)
   | Tok KElse _ _ _ :: cr, d :: dr => cat SoftLine (cat d (print_if_scan cr dr seen_if seen_cond seen_then true))
-  | _ :: cr, d :: dr =>
-      if negb seen_cond && seen_if then cat (group d) (print_if_scan cr dr seen_if true seen_then seen_else)
-      else if negb seen_then && seen_cond then cat SoftLine (cat (group d) (print_if_scan cr dr seen_if seen_cond true seen_else))
+  | c :: cr, d :: dr =>
+      if negb seen_cond && seen_if then
+        (* a space unless the condition is parenthesised *)
+        cat (if is_paren_expr c then Nil else space) (cat (group d) (print_if_scan cr dr seen_if true seen_then seen_else))
+      else if negb seen_then && seen_cond then
+        (* a then-branch that starts with `(` / `[` is kept off the line of the condition *)
+        cat (if opens_postfix c then HardLine else SoftLine) (cat (group d) (print_if_scan cr dr seen_if seen_cond true seen_else))
+      else if seen_then && negb seen_else then cat d (print_if_scan cr dr seen_if seen_cond seen_then seen_else)
       else if seen_else then cat space (cat (group d) (print_if_scan cr dr seen_if seen_cond seen_then seen_else))
       else print_if_scan cr dr seen_if seen_cond seen_then seen_else
   | _, _ => Nil
@@ -484,11 +534,11 @@ Definition print_if_expr (cs : list cst) (ds : list doc) : doc := group (print_i
 Fixpoint print_block_scan (ind : nat) (cs : list cst) (ds : list doc) (in_body : bool) (body : list doc)
          (open_trivia : doc) (has_open_trivia : bool) : doc :=
   match cs, ds with
-  | Tok KBlockBegin _ _ trail :: cr, _ :: dr =>
-      cat (Text "{")
+  | Tok KBlockBegin _ lead trail :: cr, _ :: dr =>
+      cat (cat (tcomments lead trail true false) (Text "{"))
           (print_block_scan ind cr dr true body (cat open_trivia (dconcat (map emit_trivia trail)))
                             (has_open_trivia || existsb is_comment_trivia trail))
-  | Tok KBlockEnd _ _ _ :: cr, _ :: dr =>
+  | Tok KBlockEnd _ lead trail :: cr, _ :: dr =>
       let inner :=
         match body with
         | [] => if has_open_trivia then open_trivia else Nil
@@ -496,7 +546,8 @@ Fixpoint print_block_scan (ind : nat) (cs : list cst) (ds : list doc) (in_body :
             let b := intersperse body HardLine in
             cat (if has_open_trivia then nest ind (cat open_trivia b) else nest ind (cat HardLine b)) HardLine
         end in
-      cat inner (cat (Text "}") (print_block_scan ind cr dr false body open_trivia has_open_trivia))
+      cat inner (cat (cat (cat (tcomments lead trail true false) (Text "}")) (tcomments lead trail false true))
+                     (print_block_scan ind cr dr false body open_trivia has_open_trivia))
   | _ :: cr, d :: dr =>
       if in_body then print_block_scan ind cr dr in_body (body ++ [d]) open_trivia has_open_trivia
       else print_block_scan ind cr dr in_body body open_trivia has_open_trivia
@@ -506,78 +557,104 @@ Fixpoint print_block_scan (ind : nat) (cs : list cst) (ds : list doc) (in_body :
 Definition print_block_expr (ind : nat) (cs : list cst) (ds : list doc) : doc :=
   print_block_scan ind cs ds false [] Nil false.
 
-(* print_grouped_list: (open, close, items, found_open) *)
-Fixpoint print_list_scan (cs : list cst) (ds : list doc) (open close : doc) (its : list doc) (found_open : bool)
-  : doc * doc * list doc :=
+(* print_grouped_list: (open, close, items, seps, current item, found_open, depth of delimiters inside an item) *)
+Definition add_cur (cur : option doc) (d : doc) : option doc :=
+  Some (match cur with Some x => cat x d | None => d end).
+
+Fixpoint print_list_scan (cs : list cst) (ds : list doc) (open close : doc) (its seps : list doc) (cur : option doc)
+         (found_open : bool) (depth : nat) : doc * doc * list doc * list doc :=
   match cs, ds with
-  | Tok (KParenBegin | KBlockBegin | KArrayBegin) _ _ _ :: cr, d :: dr => print_list_scan cr dr d close its true
-  | Tok (KParenEnd | KBlockEnd | KArrayEnd) _ _ _ :: cr, d :: dr => print_list_scan cr dr open d its found_open
-  | Tok KComma _ _ _ :: cr, _ :: dr => print_list_scan cr dr open close its found_open
-  | _ :: cr, d :: dr => print_list_scan cr dr open close (if found_open then its ++ [d] else its) found_open
-  | _, _ => (open, close, its)
+  | c :: cr, d :: dr =>
+      let content dp := print_list_scan cr dr open close its seps (if found_open then add_cur cur d else cur) found_open dp in
+      match c with
+      | Tok (KParenBegin | KBlockBegin | KArrayBegin) _ _ _ =>
+          if negb found_open then print_list_scan cr dr d close its seps cur true depth
+          else content (S depth)
+      | Tok (KParenEnd | KBlockEnd | KArrayEnd) _ _ _ =>
+          match depth with
+          | S dp => content dp
+          | O => print_list_scan cr dr open d (its ++ opt_list cur) seps None found_open depth
+          end
+      | Tok KComma _ lead trail =>
+          match depth with
+          | O => print_list_scan cr dr open close (its ++ [match cur with Some x => x | None => Nil end])
+                                 (seps ++ [tcomments lead trail true true]) None found_open depth
+          | _ => content depth
+          end
+      | _ => content depth
+      end
+  | _, _ => (open, close, its, seps)
   end.
 
-Definition breakable_comma : doc := cat (Text ",") SoftLine.
-
-Definition print_grouped_list (ind : nat) (cs : list cst) (ds : list doc) : doc :=
-  match print_list_scan cs ds Nil Nil [] false with
-  | (open, close, []) => cat open close
-  | (open, close, its) => group (cat open (cat (nest ind (intersperse its breakable_comma)) close))
+Definition print_grouped_list (ind : nat) (paren : bool) (cs : list cst) (ds : list doc) : doc :=
+  match print_list_scan cs ds Nil Nil [] [] None false 0 with
+  | (open, close, [], _) => cat open close
+  | (open, close, [it], [c]) =>
+      if paren then group (cat (cat (cat (cat open it) (Text ",")) c) close)      (* `(a,)` keeps its comma *)
+      else group (cat open (cat (nest ind (join_with_commas [it] [c] SoftLine)) close))
+  | (open, close, its, seps) => group (cat open (cat (nest ind (join_with_commas its seps SoftLine)) close))
   end.
 
-(* print_record_expr: (fields, current_field, has_current_field, open, close, in_body) *)
-Fixpoint print_record_scan (cs : list cst) (ds : list doc) (fields : list doc) (cur : doc) (has_cur : bool)
-         (open close : doc) (in_body : bool) : doc * doc * list doc :=
+(* print_record_expr: (fields, seps, current_field, has_current_field, open, close, in_body) *)
+Fixpoint print_record_scan (cs : list cst) (ds : list doc) (fields seps : list doc) (cur : doc) (has_cur : bool)
+         (open close : doc) (in_body : bool) : doc * doc * list doc * list doc :=
   match cs, ds with
-  | Tok KBlockBegin _ _ _ :: cr, d :: dr => print_record_scan cr dr fields cur has_cur d close true
+  | Tok KBlockBegin _ _ _ :: cr, d :: dr => print_record_scan cr dr fields seps cur has_cur d close true
   | Tok KBlockEnd _ _ _ :: cr, d :: dr =>
-      print_record_scan cr dr (if has_cur then fields ++ [cur] else fields) cur has_cur open d false
+      print_record_scan cr dr (if has_cur then fields ++ [cur] else fields) seps cur has_cur open d false
   | c :: cr, d :: dr =>
       if in_body then
         match c with
-        | Tok KComma _ _ _ =>
-            if has_cur then print_record_scan cr dr (fields ++ [cur]) Nil false open close in_body
-            else print_record_scan cr dr fields cur has_cur open close in_body
+        | Tok KComma _ lead trail =>
+            if has_cur then print_record_scan cr dr (fields ++ [cur]) (seps ++ [tcomments lead trail true true]) Nil false open close in_body
+            else print_record_scan cr dr fields seps cur has_cur open close in_body
         | Tok (KAssign | KLeftArrow) _ _ _ =>
-            print_record_scan cr dr fields (cat (cat (cat cur space) d) space) true open close in_body
-        | _ => print_record_scan cr dr fields (cat cur d) true open close in_body
+            print_record_scan cr dr fields seps (cat (cat (cat cur space) d) space) true open close in_body
+        | _ => print_record_scan cr dr fields seps (cat cur d) true open close in_body
         end
-      else print_record_scan cr dr fields cur has_cur open close in_body
-  | _, _ => (open, close, fields)
+      else print_record_scan cr dr fields seps cur has_cur open close in_body
+  | _, _ => (open, close, fields, seps)
   end.
 
 Definition print_record_expr (ind : nat) (cs : list cst) (ds : list doc) : doc :=
-  match print_record_scan cs ds [] Nil false Nil Nil false with
-  | (open, close, []) => cat open close
-  | (open, close, fields) => cat (cat open (group (nest ind (intersperse fields breakable_comma)))) close
+  match print_record_scan cs ds [] [] Nil false Nil Nil false with
+  | (open, close, [], _) => cat open close
+  | (open, close, fields, seps) => cat (cat open (group (nest ind (join_with_commas fields seps SoftLine)))) close
   end.
 
-(* print_macro_expansion: (result, args, in_args, open, close) *)
-Fixpoint print_macro_scan (cs : list cst) (ds : list doc) (result : doc) (args : list doc) (in_args : bool)
-         (open close : doc) : doc * list doc * doc * doc :=
+(* print_macro_expansion: (result, args, seps, in_args, open, close) *)
+Fixpoint pad_to (seps : list doc) (target fuel : nat) : list doc :=   (* while seps.len() + 1 < args.len() { seps.push(nil) } *)
+  match fuel with
+  | O => seps
+  | S f => if Nat.ltb (S (length seps)) target then pad_to (seps ++ [Nil]) target f else seps
+  end.
+
+Fixpoint print_macro_scan (cs : list cst) (ds : list doc) (result : doc) (args seps : list doc) (in_args : bool)
+         (open close : doc) : doc * list doc * list doc * doc * doc :=
   match cs, ds with
   | c :: cr, d :: dr =>
       match c with
       | Tok KIdent _ _ _ =>
-          if in_args then print_macro_scan cr dr result (args ++ [d]) in_args open close
-          else print_macro_scan cr dr (cat result d) args in_args open close
-      | Tok KMacroExpand _ _ _ => print_macro_scan cr dr (cat result d) args in_args open close
-      | Tok KParenBegin _ _ _ => print_macro_scan cr dr result args true d close
-      | Tok KParenEnd _ _ _ => print_macro_scan cr dr result args false open d
-      | Tok KComma _ _ _ =>
-          if in_args then print_macro_scan cr dr result args in_args open close
-          else print_macro_scan cr dr (cat result d) args in_args open close
+          if in_args then print_macro_scan cr dr result (args ++ [d]) seps in_args open close
+          else print_macro_scan cr dr (cat result d) args seps in_args open close
+      | Tok KMacroExpand _ _ _ => print_macro_scan cr dr (cat result d) args seps in_args open close
+      | Tok KParenBegin _ _ _ => print_macro_scan cr dr result args seps true d close
+      | Tok KParenEnd _ _ _ => print_macro_scan cr dr result args seps false open d
+      | Tok KComma _ lead trail =>
+          if in_args then
+            print_macro_scan cr dr result args (pad_to seps (length args) (length args) ++ [tcomments lead trail true true]) in_args open close
+          else print_macro_scan cr dr (cat result d) args seps in_args open close
       | _ =>
-          if in_args then print_macro_scan cr dr result (args ++ [d]) in_args open close
-          else print_macro_scan cr dr (cat result d) args in_args open close
+          if in_args then print_macro_scan cr dr result (args ++ [d]) seps in_args open close
+          else print_macro_scan cr dr (cat result d) args seps in_args open close
       end
-  | _, _ => (result, args, open, close)
+  | _, _ => (result, args, seps, open, close)
   end.
 
 Definition print_macro_expansion (cs : list cst) (ds : list doc) : doc :=
-  match print_macro_scan cs ds Nil [] false Nil Nil with
-  | (result, [], open, close) => cat (cat result open) close
-  | (result, args, open, close) => cat (cat (cat result open) (intersperse args (Text ", "))) close
+  match print_macro_scan cs ds Nil [] [] false Nil Nil with
+  | (result, [], _, open, close) => cat (cat result open) close
+  | (result, args, seps, open, close) => cat (cat (cat result open) (join_with_commas args seps (Text " "))) close
   end.
 
 (* print_qualified_path: identifiers and `::` are emitted, any other token is skipped *)
@@ -588,6 +665,17 @@ Fixpoint print_qualified_path (cs : list cst) (ds : list doc) : doc :=
   | Node _ _ :: cr, d :: dr => cat d (print_qualified_path cr dr)
   | _, _ => Nil
   end.
+
+(* print_unary_expr: a space before an operand (any child but the first) that itself starts with `-` / `+` *)
+Fixpoint print_unary_scan (first : bool) (cs : list cst) (ds : list doc) (acc : doc) : doc :=
+  match cs, ds with
+  | c :: cr, d :: dr =>
+      let signed := negb first && match first_tkind c with Some (KOp _ true) => true | _ => false end in
+      print_unary_scan false cr dr (cat (if signed then cat acc space else acc) d)
+  | _, _ => acc
+  end.
+
+Definition print_unary_expr (cs : list cst) (ds : list doc) : doc := print_unary_scan true cs ds Nil.
 
 (* cst_to_doc *)
 Fixpoint doc_of (ind : nat) (c : cst) : doc :=
@@ -603,12 +691,12 @@ Fixpoint doc_of (ind : nat) (c : cst) : doc :=
       | SLetRecDecl => print_let_like is_letrec false false cs ds []
       | SAssignExpr => print_assign_expr cs ds
       | SBinaryExpr => print_binary_expr ind cs ds
-      | SUnaryExpr => dconcat ds
+      | SUnaryExpr => print_unary_expr cs ds
       | SCallExpr => group (dconcat ds)
       | SLambdaExpr => print_lambda_expr cs ds
       | SIfExpr => print_if_expr cs ds
       | SBlockExpr => print_block_expr ind cs ds
-      | SGroupedList _ => print_grouped_list ind cs ds
+      | SGroupedList _ paren => print_grouped_list ind paren cs ds
       | SParenExpr => group (dconcat ds)
       | SRecordExpr => print_record_expr ind cs ds
       | SMacroExpansion => print_macro_expansion cs ds
